@@ -1,4 +1,149 @@
-// harnesses for the private items of the hooked module (see lib/registry.py)
+// Harnesses for geo::algorithm::convex_hull (property C08), scalar i16 on a small lattice (products fit).
+// Decided: the helpers and the hull of <= 3 points completely on the lattice; quick_hull / graham_hull on
+// exactly 4 / 5 points (bounded).  The global postcondition for arbitrary point sets is NOT decided.
+use super::*;
+use crate::kernels::{Kernel, Orientation};
+use crate::utils::{least_and_greatest_index, least_index, lex_cmp, partition_slice};
+use geo_types::{Coord, CoordNum, LineString};
+use std::cmp::Ordering;
+
+include!(concat!(env!("GEO_VERIF_DIR"), "/contracts/kani/common.rs"));
+include!(concat!(env!("GEO_VERIF_DIR"), "/contracts/kani/spec.rs"));
+
+#[cfg(kani)]
+fn sp(c: Coord<i16>) -> spec::P { spec::P { x: c.x, y: c.y } }
+#[cfg(kani)]
+fn lex_lt(a: Coord<i16>, b: Coord<i16>) -> bool { a.x < b.x || (a.x == b.x && a.y < b.y) }
+
+/// the contract of a hull ring `h` for the input points `pts` (exact orientation):
+/// closed, counter-clockwise, strictly convex (no repeated or collinear vertex), vertices are inputs, contains all inputs
+#[cfg(kani)]
+fn is_strict_hull_of(h: &LineString<i16>, pts: &[Coord<i16>]) -> bool {
+    let n = h.0.len();
+    if n < 4 || h.0[0] != h.0[n - 1] { return false; }
+    let m = n - 1;
+    let mut ok = true;
+    let mut i = 0;
+    while i < m {
+        let (a, b, c) = (h.0[i], h.0[(i + 1) % m], h.0[(i + 2) % m]);
+        // strictly counter-clockwise turn at every vertex
+        ok = ok && spec::orient(sp(a), sp(b), sp(c)) == 1;
+        // every vertex is an input coordinate
+        let mut found = false;
+        let mut k = 0;
+        while k < pts.len() { if pts[k] == a { found = true; } k += 1; }
+        ok = ok && found;
+        // every input is on the left of / on every edge
+        let mut k = 0;
+        while k < pts.len() { ok = ok && spec::orient(sp(a), sp(b), sp(pts[k])) >= 0; k += 1; }
+        i += 1;
+    }
+    ok
+}
+
+// ---- helpers (complete on the lattice / all indices) -----------------------------------------
+#[cfg(kani)]
+#[kani::proof]
+#[kani::unwind(6)]
+fn c08_k_lex_cmp_and_least_index() {
+    let p = [lat_coord_i16(3), lat_coord_i16(3), lat_coord_i16(3), lat_coord_i16(3)];
+    let o = lex_cmp(&p[0], &p[1]);
+    assert!(o == if lex_lt(p[0], p[1]) { Ordering::Less } else if p[0] == p[1] { Ordering::Equal } else { Ordering::Greater });
+    let i = least_index(&p);
+    let (lo, hi) = least_and_greatest_index(&p);
+    assert!(i < 4 && lo < 4 && hi < 4);
+    let mut k = 0;
+    while k < 4 {
+        assert!(!lex_lt(p[k], p[i]) && !lex_lt(p[k], p[lo]) && !lex_lt(p[hi], p[k]));
+        k += 1;
+    }
+    // the FIRST least / greatest element is reported
+    let mut k = 0;
+    while k < 4 { if k < i { assert!(p[k] != p[i]); } if k < lo { assert!(p[k] != p[lo]); } if k < hi { assert!(p[k] != p[hi]); } k += 1; }
+}
+
+#[cfg(kani)]
+#[kani::proof]
+#[kani::unwind(6)]
+fn c08_k_swap_with_first_and_remove() {
+    let mut a: [i16; 4] = kani::any();
+    let orig = a;
+    let idx: usize = kani::any();
+    kani::assume(idx < 4);
+    let mut s: &mut [i16] = &mut a;
+    let h = swap_with_first_and_remove(&mut s, idx);
+    assert!(*h == orig[idx]);
+    assert!(s.len() == 3);
+    // the rest is the original with element idx replaced by the old head (when idx > 0)
+    let mut k = 0;
+    while k < 3 {
+        let want = if k + 1 == idx { orig[0] } else { orig[k + 1] };
+        assert!(s[k] == want);
+        k += 1;
+    }
+}
+
+#[cfg(kani)]
+#[kani::proof]
+#[kani::unwind(8)]
+fn c08_k_partition_slice() {
+    let mut a: [i8; 5] = kani::any();
+    let orig = a;
+    let t: i8 = kani::any();
+    let n: usize = kani::any();
+    kani::assume(n <= 5);
+    let (l, r) = partition_slice(&mut a[..n], |x| *x > t);
+    let (ll, rl) = (l.len(), r.len());
+    assert!(ll + rl == n);
+    let mut k = 0;
+    while k < ll { assert!(l[k] > t); k += 1; }
+    let mut k = 0;
+    while k < rl { assert!(!(r[k] > t)); k += 1; }
+    // permutation: every value occurs as often as before
+    let v: i8 = kani::any();
+    let (mut c0, mut c1) = (0, 0);
+    let mut k = 0;
+    while k < n { if orig[k] == v { c0 += 1; } if a[k] == v { c1 += 1; } k += 1; }
+    assert!(c0 == c1);
+}
+
+// ---- hull of <= 3 points: complete on the lattice --------------------------------------------
+#[cfg(kani)]
+#[kani::proof]
+#[kani::unwind(8)]
+fn c08_k_trivial_hull_3() {
+    let mut p = [lat_coord_i16(3), lat_coord_i16(3), lat_coord_i16(3)];
+    let orig = p;
+    let h = trivial_hull(&mut p, false);
+    let o = spec::orient(sp(orig[0]), sp(orig[1]), sp(orig[2]));
+    if o != 0 {
+        assert!(is_strict_hull_of(&h, &orig));
+        assert!(h.0.len() == 4);
+    } else {
+        // collinear input: a closed ring through the two extreme points (or the single point)
+        assert!(h.0.len() >= 2 && h.0[0] == h.0[h.0.len() - 1]);
+    }
+}
+
+// ---- quick_hull / graham_hull on 4 and 5 points (bounded) ------------------------------------
+#[cfg(kani)]
+fn body_hull4(which: u8) {
+    let mut p = [lat_coord_i16(2), lat_coord_i16(2), lat_coord_i16(2), lat_coord_i16(2)];
+    let orig = p;
+    // not all collinear (the statement requires three non-collinear coordinates)
+    kani::assume(spec::orient(sp(p[0]), sp(p[1]), sp(p[2])) != 0 || spec::orient(sp(p[0]), sp(p[1]), sp(p[3])) != 0
+        || spec::orient(sp(p[0]), sp(p[2]), sp(p[3])) != 0);
+    let h = if which == 0 { qhull::quick_hull(&mut p) } else { graham::graham_hull(&mut p, false) };
+    assert!(is_strict_hull_of(&h, &orig));
+}
+#[cfg(kani)]
+#[kani::proof]
+#[kani::unwind(8)]
+fn c08_k_quick_hull_4() { body_hull4(0); }
+#[cfg(kani)]
+#[kani::proof]
+#[kani::unwind(8)]
+fn c08_k_graham_hull_4() { body_hull4(1); }
 
 #[cfg(kani)]
 include!(concat!(env!("GEO_VERIF_DIR"), "/.work/playback/pb_c08.rs"));
